@@ -368,6 +368,18 @@ Example C03_regex_inverts_inline_fk_except_nonvacuous :
   /\ map pf_symbol (fill_const_name wi_text [mkPfk (B "0") [B "pid"] (B "p") [B "id"]]) = [B "fk_p"].
 Proof. exact (conj wi_is (conj (proj1 wi_premises) wi_result)). Qed.
 
+(** the premise [no_later_tail] of 3e' is necessary, and without it the export loses a declared name: two named
+    references in one column definition (legal SQL; reproduced on the real inspector: corpus statement 15 of
+    harness/cmd/export/corpus.go, tie line k015 `fks=fk_b,1`; finding C03-two-inline-fk-one-column): the greedy class
+    [^,]* finds the LAST clause only, the key to p keeps its PRAGMA number and the name fk_a is not recovered. *)
+Theorem C03_inline_fk_two_names_refuted :
+  exists s : bytes,
+    s = B "CREATE TABLE `c` (`pid` int CONSTRAINT `fk_a` REFERENCES `p` (`id`) CONSTRAINT `fk_b` REFERENCES `q` (`id`))"
+    /\ map pf_symbol (fill_const_name s [mkPfk (B "0") [B "pid"] (B "q") [B "id"]; mkPfk (B "1") [B "pid"] (B "p") [B "id"]])
+        = [B "fk_b"; B "1"].
+Proof. exists wi_two. split; [reflexivity|exact (proj2 wi_two_result)]. Qed.
+Print Assumptions C03_inline_fk_two_names_refuted.
+
 (** reFKC at one inline key, for every text around it: the match and its captures *)
 Theorem C03_reFKC_match_exact :
   forall c w col mid sym rt rcols rest,
